@@ -171,4 +171,7 @@ def run(chk, tier):
                "refuses-in-flight", "returns Err when state is Writing, before anything is sent", len(guards), loc=C.fn_loc(ha_f))
     chk.note("Observed while reading (not decidable by these rules): when a write fills the buffer exactly, the next write dispatches and returns Ok(0), "
              "which std::io::Write::write_all reports as WriteZero (DESIGN.md F14)")
+    # reassembly runs read_pdu on whatever prefix the transport has delivered so far: every cut must come back as "incomplete"
+    from . import shared
+    shared.parser_availability(chk, fx, "reassembly-availability")
     chk.undecided.append("fragmentation/reassembly under arbitrary chunk sizes and transport schedules (needs execution or a model checker)")
